@@ -33,6 +33,11 @@ def load_known():
   return out
 
 
+def _one_line(x, n):
+  # explanations go on ONE line: a line of embedded program output must never look like a VIOLATION / KNOWN-FINDING line
+  return ' | '.join(l.strip() for l in str(x)[:n].splitlines() if l.strip())
+
+
 class Report(object):
   def __init__(self, prop, tier, seed, level):
     self.prop = prop
@@ -82,11 +87,11 @@ class Report(object):
                        replay=f.replay), fh, indent=1, default=str)
       tail = '' if f.concrete else ' no-failing-input-found'
       print('VIOLATION property=%s replay=%s%s' % (self.prop, path, tail))
-      print('  -> %s' % f.what[:600])
+      print('  -> %s' % _one_line(f.what, 600))
     for name, reason in self.undecided:
-      print('UNDECIDED obligation=%s reason=%s' % (name, str(reason)[:300]))
+      print('UNDECIDED obligation=%s reason=%s' % (name, _one_line(reason, 300)))
     for e in self.errors:
-      print('ERROR %s' % str(e)[:1500])
+      print('ERROR %s' % _one_line(e, 1500))
     ev = dict(property_id=self.prop, tier=self.tier, seed=self.seed, level=self.level,
               coverage=self.coverage, assumptions=sorted(set(self.assumptions)),
               wall_s=round(time.time() - self.t0, 2), violations=violations,
